@@ -1,6 +1,7 @@
 package sym
 
 import (
+	"fmt"
 	"go/token"
 	"go/types"
 	"math/big"
@@ -323,15 +324,30 @@ func (m *M) convert(v Value, from, to types.Type) Value {
 			iv = smt.BV2Nat(x)
 		}
 		r := smt.ToReal(iv)
+		if !r.IsConst() {
+			setRealInfo(r, realInfo{integral: true, bound: new(big.Int).Lsh(big.NewInt(1), uint(fw))})
+		}
+		if fw > 32 {
+			m.ex.noteAssumption("int64->float64 conversions are treated as exact (|x| < 2^53 assumed)")
+		}
 		return m.roundFloat(r, to, true)
 	case isFloat(from) && tint:
 		// truncation toward zero; out-of-range is implementation-defined: recorded as obligation
+		if hasPoison(x) {
+			m.st.NextObj++
+			return smt.Var(fmt.Sprintf("%sconv_%d", "anyint_", m.st.NextObj), smt.BV(tw))
+		}
 		fl := smt.ToIntFloor(x)
 		neg := smt.RLt(x, smt.RealC(new(big.Rat)))
 		// trunc = floor(x) if x>=0 else -floor(-x)
 		tr := smt.Ite(neg, smt.IntSub(smt.IntC(0), smt.ToIntFloor(smt.RNeg(x))), fl)
 		m.noteFloatToInt(x, tw, tsigned)
-		return smt.Int2BV(tw, tr)
+		// in range on this path (proved or assumed by the implicit obligation): the bit-vector is the integer
+		res := smt.Int2BV(tw, tr)
+		if res.Op == "int2bv" && tw >= 32 && tsigned {
+			res.Hint = "ss"
+		}
+		return res
 	case isFloat(from) && isFloat(to):
 		fb := under(from).(*types.Basic).Kind()
 		tb := under(to).(*types.Basic).Kind()
